@@ -928,7 +928,7 @@ Section StepN.
       + intros g. pose proof (Hfib g) as []. specialize (Ha g). pose proof (Hb g).
         pose proof (Hcn_upd (thr s) (nthr s) t T' g Ht) as EH. rewrite Hh' in EH.
         pose proof (Hcn_term (thr s) (nthr s) t g Ht).
-        constructor; rewrite ?wqz_set_thr; cbn [thr nthr dq fstt set_thr]; try lia.
+        constructor; rewrite ?wqz_set_thr; cbn [thr nthr dq fstt set_thr]; try lia. Show.
     - (* x stolen from the far end of deque dv of another thread *)
       assert (Hr : 2 * (t + 1) <= i' < lb_iend t (nthr s)) by lia.
       destruct (scan_deque t (nthr s) i' Ht Hr) as (Dv1 & Dv2 & Dv3).
